@@ -9,6 +9,8 @@ pub mod c01;
 pub mod c04;
 pub mod c07;
 pub mod c08;
+pub mod c10;
+pub mod c11;
 
 pub fn run(prop: &str, tier: &str) -> ! {
 	match prop {
@@ -16,6 +18,8 @@ pub fn run(prop: &str, tier: &str) -> ! {
 		"C04" => c04::run(tier),
 		"C07" => c07::run(tier),
 		"C08" => c08::run(tier),
+		"C10" => c10::run(tier),
+		"C11" => c11::run(tier),
 		_ => machinery_error(&format!("unknown property {}", prop)),
 	}
 }
